@@ -18,7 +18,8 @@ KIND_PRED = {'null': 'is_null', 'remove': 'is_remove', 'marker': 'is_marker', 'b
              'xstr': 'is_xstr', 'list': 'is_list', 'dict': 'is_dict', 'grid': 'is_grid'}
 KIND_CODE = {'null': 0, 'remove': 1, 'marker': 2, 'na': 3, 'bool': 4, 'num': 5, 'str': 6, 'uri': 7, 'ref': 8, 'sym': 9, 'date': 10, 'time': 11,
              'dt': 12, 'coord': 13, 'xstr': 14, 'list': 15, 'dict': 16, 'grid': 17}
-CONV = {'Bool': 'bool', 'Number': 'num', 'Str': 'str', 'Ref': 'ref', 'Uri': 'uri', 'Symbol': 'sym', 'Date': 'date', 'Time': 'time', 'DateTime': 'dt',
+CONV_PRIM = {'bool': 'bool', 'f64': 'num', 'String': 'str'}      # TryFrom<&Value> for primitives: the payload's inner value
+CONV = {'bool': 'bool', 'f64': 'num', 'String': 'str', 'Bool': 'bool', 'Number': 'num', 'Str': 'str', 'Ref': 'ref', 'Uri': 'uri', 'Symbol': 'sym', 'Date': 'date', 'Time': 'time', 'DateTime': 'dt',
         'Coord': 'coord', 'XStr': 'xstr', 'Dict': 'dict', 'Grid': 'grid', 'Vec': 'list', 'Marker': 'marker', 'Na': 'na', 'Remove': 'remove'}
 GETTERS = {'get_bool': 'bool', 'get_num': 'num', 'get_str': 'str', 'get_xstr': 'xstr', 'get_ref': 'ref', 'get_uri': 'uri', 'get_symbol': 'sym',
            'get_date': 'date', 'get_time': 'time', 'get_date_time': 'dt', 'get_coord': 'coord', 'get_dict': 'dict', 'get_list': 'list', 'get_grid': 'grid'}
@@ -73,6 +74,10 @@ def path(ex, t):
                     f['conv'].append(short)
                     if short not in ('Marker', 'Na', 'Remove'):
                         payload = v.fields[0] if v.fields else None
+                        if short in CONV_PRIM and payload is not None:
+                            pl = payload
+                            while isinstance(pl, Ptr): pl = ex.load(pl)
+                            payload = pl.fields[0] if isinstance(pl, Agg) and pl.fields else pl
                         same = sym_eq(ex, r.fields[0], payload)
                         if not C12.B(ex, same): f['conv'].append(short + '-payload-differs')
         d = h.dict_payload([(b'k', v)])
